@@ -52,7 +52,7 @@ def main():
     sh = base + fam_nbmerge.with_strat([s for s in base if s[1].startswith("act-")],
                                        ("mergetool", None, None, True), "-mergetool")
     st = fam_nbmerge.strategy_shards("quick", (PROP,), kn, tools=("git",))
-    sh += st if t == "thorough" else st[1::2]
+    sh += st
     r = runner.explore("harness.fam_nbmerge", sh, nproc=common.nproc(),
                        budget_s=400 if t == "quick" else 3000)
     chk.add("diffs-inside-notebook-decisions", r)
